@@ -147,8 +147,8 @@ DCbRun(t) ==              \* the completion callback runs (on the loop thread)
   /\ cbRan' = [cbRan EXCEPT ![t] = @ + 1]
   /\ UNCHANGED <<minT, maxT, ready, undo, doing, idle, threads, stopFlag, exiting, collected, left, pendSpawn, lastQ,
                  accepted, hasCb, taken, began, ended, erased, cancelledOk, dropped, insec>>
-DLeaving(w) ==            \* "tp.w.leaving"
-  /\ w \notin left /\ left' = left \cup {w}
+DLeaving(w) ==            \* "tp.w.leaving": a worker ends its thread function (never from inside its wait)
+  /\ w \notin left /\ w \notin idle /\ left' = left \cup {w}
   /\ UNCHANGED <<minT, maxT, ready, undo, doing, idle, threads, stopFlag, exiting, collected, pendSpawn, lastQ>> /\ UNCH_GHOST
 DExitFree(w, found) ==    \* "tp.w.exit_free": the exiting worker takes itself out of the cabinet
   /\ w \in exiting /\ found = (w \in threads)
